@@ -3,7 +3,6 @@
 package main
 
 import (
-	"encoding/json"
 	"fmt"
 	"time"
 
@@ -286,7 +285,7 @@ func c10Run(r *vkit.Run) {
 
 func c10Replay(r *vkit.Run, v vkit.Violation) *vkit.Violation {
 	var in c10Input
-	if err := json.Unmarshal(v.Input, &in); err != nil {
+	if err := vkit.DecodeInput(v, &in); err != nil {
 		r.HarnessError("bad input: %v", err)
 	}
 	ch := v.Choices
